@@ -35,3 +35,7 @@ const blockTypeObj = 'o'
 const blockTypeAny = 0
 
 const maxRestarts = (1 << 16) - 1
+
+// maxIndexLevels bounds the depth of a multi-level index: each level
+// shrinks the number of blocks, and offsets are 64 bits.
+const maxIndexLevels = 64
